@@ -188,13 +188,13 @@ def oldies_sites(repo, log):
                 f"    let mut log = SpawnLog::new();\n"
                 f"    let {pattern} = create_streams_for_old_and_new_events();\n" + "".join(builds) +
                 f"    match {scrutinee} {{\n" + "".join(arm_texts) + "    }\n    log\n}\n")
-        lemmas.append(Lemma(f"oldies_site_{fname}", ["C12", "C11"], kind="property",
+        lemmas.append(Lemma(f"oldies_site_{fname}", ["C12", "C11", "C07"], kind="property",
                             clauses=[f"{fname}: one executor per stream kind, registered under its own stream id, with the configured limit/timeout; sequential_transition => the newies executor is spawned inside the oldies' close callback"]))
         log["R15-call-site"] = log.get("R15-call-site", 0) + 1
     return out, lemmas
 
 
-UNIT = Unit("multi_oldies", [], spec=SPEC, generated=oldies_sites, lemmas=[Lemma("oldies_site_" + v, ["C12", "C11"]) for v, _ in VARIANTS],
+UNIT = Unit("multi_oldies", [], spec=SPEC, generated=oldies_sites, lemmas=[Lemma("oldies_site_" + v, ["C12", "C11", "C07"]) for v, _ in VARIANTS],
             trusted=["create_streams_for_old_and_new_events (C09), the user's pipeline builders: shims"],
             assumptions=["the generator reads the call skeleton of spawn_*_oldies_executor (which *_from_stream call is inside whose close-callback argument); that a close callback runs after the executor's last item is the obligation of unit executor_life",
                          "closures other than the close callbacks (error callbacks, name plumbing, Arc clones) are not modelled"])
